@@ -195,6 +195,38 @@ for _pid, (_t, _k) in EXTRA.items():
     _ref, _text, _tech = CLAIMS[_pid]
     CLAIMS[_pid] = (_ref, _text + _t, _tech + _k)
 
+# third round and later (DESIGN.md §9.8-9.10)
+EXTRA2 = {
+    "C01": (" Third round: match-or-bind in the scan layer, GRAPH ?g visits every visible named graph, both ORDER BY comparators are lexicographic over "
+            "all keys, and the solution sequence is cut only by the finalizers or under a guard that consults order, distinct, grouping and projection.",
+            ", lookup-before-bind dominance, early-cut guard analysis"),
+    "C02": (" Third round: the star plan accounts for every pattern of its join group and the plan memo stores under a node's key only plans derived from that node.",
+            ", flow-aware def-use of memo stores"),
+    "C04": (" Third round: the across-named-graphs reader takes its graphs from the catalog or filters a visible set to named, existing graphs.", ""),
+    "C05": (" Third round: the rule join's hash table keeps every partial binding and every bucket index is probed.", ""),
+    "C07": (" Third round: only the canonicalising path may call the raw decision-node constructor, unique_d and compress.", ", who-may-call"),
+    "C08": (" Third round: a seen-set that prunes proof-search states is keyed on the proof and the pending conjuncts.", ", memo-key completeness"),
+    "C09": (" Third round: writer set of active_windows / app_time.", ", writer-set analysis"),
+    "C11": (" Third round: data of a received window result is filed under that result's own window.", ""),
+    "C12": (" Third round: every carried-over and every new fact is inserted into the reasoner's index.", ""),
+    "C13": (" Third round: both term cleaners treat a literal's suffix alike (defect fixed) and the language-tag class accepts digits.", ", sibling agreement"),
+    "C14": (" Third round: the Turtle writer breaks lines only after a statement terminator (defect fixed), cleaned terms are never interpreted as surface "
+            "syntax again (decode once; five defects fixed), and the Turtle writer writes undelimited text only for quoted triples.",
+            ", decode-once taint, writer/reader language agreement"),
+    "C16": (" Third round: measured recognisers return the remainder right after their token; every recursion cycle of the parser enters a nesting guard "
+            "that it holds across its recursive calls, and every loop that deepens a recursive tree type charges a persistent depth budget whose failure "
+            "leaves the parse (three stack-overflow defects fixed).",
+            ", call-graph SCCs with function-value edges, guard recognition by behaviour, deepening-loop analysis (T-DEPTH)"),
+    "C17": (" Third round: the lowering charges a depth budget for every operator it chains (stack overflow in the optimizer for long requests, fixed), and "
+            "every operation that combines the cost estimator's saturating estimates is itself saturating (overflow panic under the project's dev profile, fixed).",
+            ", deepening-loop analysis (T-DEPTH), estimate taint to overflow-checked arithmetic"),
+    "C18": (" Third round: the fresh-name counter is a &mut parameter threaded through every recursive call.", ""),
+    "C19": (" Third round: the repair search starts from the complete fact set and returns the repairs as found.", ""),
+}
+for _pid, (_t, _k) in EXTRA2.items():
+    _ref, _text, _tech = CLAIMS[_pid]
+    CLAIMS[_pid] = (_ref, _text + _t, _tech + _k)
+
 NA = {}
 
 PENDING = "check not implemented yet in this revision (see DESIGN.md for the planned rules)"
